@@ -47,9 +47,9 @@ BOOL_LIST = ['disabled', 'checked', 'zed']
 
 BOUNDS = {
     # (k, deviations, syntaxes, boolean-list variants)
-    'quick': dict(sweeps=[(4, 0, ['html'], [True]), (3, 1, ['html', 'jsx'], [True]), (2, 2, SYNTAXES, [True, False])],
+    'quick': dict(sweeps=[(4, 0, ['html'], [True]), (3, 1, ['html', 'jsx'], [True]), (2, 2, SYNTAXES, [True, False, 'empty'])],
                   payload=3),
-    'thorough': dict(sweeps=[(5, 0, ['html'], [True]), (4, 1, SYNTAXES, [True]), (3, 2, SYNTAXES, [True, False])],
+    'thorough': dict(sweeps=[(5, 0, ['html'], [True]), (4, 1, SYNTAXES, [True]), (3, 2, SYNTAXES, [True, False, 'empty'])],
                      payload=4),
 }
 PAYLOAD_UNITS = ['a', '1', ' ', '>', '+', '^', '*', '(', ')', '[', ']', '{', '}', '"', "'", '#', '.', '/', '=', ':', '!', '@',
@@ -67,7 +67,7 @@ def describe(tier):
     return dict(
         rule='E2xE4: element x with every sequence of <= k mentions from a %d-entry menu (from the fourth mention on: the 16 merge-relevant entries; flagged names at most once), adjacent '
              'bracket mentions sharing a bracket or not, under all option sets with <= d deviations over %s, syntaxes and '
-             'boolean-list variants (explicit [disabled, checked] / library default): (k, d, syntaxes, explicit-list) in %s. '
+             'boolean-list variants (True = explicit [disabled, checked, zed] / False = library default / empty = []): (k, d, syntaxes, explicit-list) in %s. '
              'Payload sweep E1: all payloads of <= %d units from %d units in hosts x[a=P], x[a="P"], x[a=\'P\'], x[a={P}] (units '
              'excluded per host as documented). Transition = one more mention / one option toggle / one appended unit.' % (
                  len(MENU), list(OPTION_SPACE), b['sweeps'], b['payload'], len(PAYLOAD_UNITS)),
@@ -136,8 +136,10 @@ def reference(ms, opts, syntax, explicit_list):
             out = out.lower()
         if flag == 'implied' and val is None:
             continue
-        if flag == 'listed-explicit' and not explicit_list:
+        if flag == 'listed-explicit' and explicit_list is not True:
             flag = None
+        if flag == 'listed' and explicit_list == 'empty':
+            flag = None             # an empty list is a list: nothing is boolean by its name
         if flag in ('bool', 'listed', 'listed-explicit') and val is None:
             if opts.get('output.compactBoolean'):
                 if style != 'html':
@@ -171,7 +173,7 @@ def check_merge(ms, share, opts, syntax, explicit_list, host=None):
     o = dict((k, v) for k, v in opts.items() if v is not None)
     o['output.format'] = False
     if explicit_list:
-        o['output.booleanAttributes'] = list(BOOL_LIST)
+        o['output.booleanAttributes'] = list(BOOL_LIST) if explicit_list is True else []
     exp = reference(ms, opts, syntax, explicit_list)
     try:
         cfg['options'] = o
@@ -210,7 +212,7 @@ def check_label(ms, share, syntax, explicit_list):
     s = 'label' + source(ms, share)[1:] + '>input'
     o = {'output.format': False}
     if explicit_list:
-        o['output.booleanAttributes'] = list(BOOL_LIST)
+        o['output.booleanAttributes'] = list(BOOL_LIST) if explicit_list is True else []
     exp = reference(ms, {}, syntax, explicit_list)
     try:
         ev = lex_html(expand(s, {'syntax': syntax, 'options': o}))
@@ -419,7 +421,7 @@ def repro(case):
     o = dict(case['options'])
     o['output.format'] = False
     if case['explicit_boolean_list']:
-        o['output.booleanAttributes'] = BOOL_LIST
+        o['output.booleanAttributes'] = BOOL_LIST if case['explicit_boolean_list'] is True else []
     cfg = {'syntax': case['syntax'], 'options': o}
     if case.get('host') == HOST_ALIAS:
         cfg['snippets'] = dict(ALIAS_SNIPPETS)
